@@ -339,5 +339,44 @@ def fam_design_witness(ctx, rng):
     nontrivial_sig(ctx, "witness", "integer", "single-peak", n, [p])
 
 
-FAMILIES = [("curve-range-history", fam_curve), ("traditional-range-history", fam_traditional),
+def fam_repo_tests(ctx, rng):
+    """Thorough tier, once per run: the repository's own test modules executed with the class invariants attached
+    (realistic workloads: example recordings, processing, window rejection, object I/O)."""
+    import json
+    import os
+    import subprocess
+    import sys
+    import tempfile
+    if ctx.tier != "thorough" or ctx.shard != 0 or ctx.counters.get("repo_test_runs", 0):
+        return fam_traditional(ctx, rng)
+    ctx.count("repo_test_runs")
+    import hvsrpy
+    repo = os.path.dirname(os.path.dirname(os.path.abspath(hvsrpy.__file__)))
+    d = tempfile.mkdtemp(prefix="c08-pytest-", dir=os.environ.get("HVMON_SCRATCH"))
+    out = os.path.join(d, "plugin.json")
+    mods = ["test_hvsr_curve.py", "test_hvsr_traditional.py", "test_hvsr_azimuthal.py", "test_window_rejection.py",
+            "test_object_io.py", "test_processing.py", "test_seismic_recording_3c.py", "test_timeseries.py"]
+    env = dict(os.environ, HVMON_PLUGIN_OUT=out)
+    ctx.describe(kind="repository tests under invariants", modules=mods)
+    try:
+        subprocess.run([sys.executable, "-W", "ignore", "-m", "pytest", "-q", "-p", "no:cacheprovider", "-p", "hvmon.pytest_plugin",
+                        "--timeout=900"] + [os.path.join(repo, "test", m) for m in mods],
+                       cwd=d, env=env, capture_output=True, text=True, timeout=1500)
+        if os.path.exists(out):
+            with open(out) as fh:
+                r = json.load(fh)
+            for k, v in r["counters"].items():
+                if k.startswith("mon:") or k == "invariant_evaluations":
+                    ctx.counters["repo-tests:" + k] += v
+            for v in r["violations"]:
+                ctx.violation(v["kind"], "under the repository's own tests: " + v["message"], test=(v.get("case") or {}).get("test"),
+                              **{k: w for k, w in (v.get("witness") or {}).items() if k in ("search_range", "reported", "window")})
+        else:
+            ctx.count("repo_test_run_produced_no_observations")
+    finally:
+        import shutil
+        shutil.rmtree(d, ignore_errors=True)
+
+
+FAMILIES = [("repository-tests-under-invariants", fam_repo_tests), ("curve-range-history", fam_curve), ("traditional-range-history", fam_traditional),
             ("azimuthal-range-history", fam_azimuthal), ("upper-limit-near-peak", fam_design_witness)]
